@@ -135,7 +135,6 @@ def _install():
 
     _state["framegen"] = framegen
 
-    @elaborate_frame.register(framegen)
     def elab(frame, next_inner):
         w = _state["world"]
         k = frame.pyframe.f_locals["i"]
@@ -165,10 +164,15 @@ def _install():
         if el[0] == "one":
             return elem(el[1])
         if el[0] == "seq":
-            return tuple(elem(e) for e in el[1])
+            items = [elem(e) for e in el[1]]
+            # any Sequence is a sequence: a list where the case says so, a tuple otherwise
+            return items if w.case.get("seq_as_list") else tuple(items)
         if el[0] == "raise":
             raise Injected(el[1])
         raise ValueError(el)
+
+    _state["elab"] = elab
+    elaborate_frame.register(framegen)(elab)
 
 
 class World:
@@ -186,6 +190,14 @@ class World:
         self.fault_id = 900
         self.ticks = 0
         _state["world"] = self
+        # the same hook, registered for the frames' code either directly or through customize(..., elaborate=hook): the latest
+        # registration wins, so this is re-done for every world
+        import stackscope as _ss
+
+        if case.get("via") == "customize":
+            _ss.customize(_state["framegen"], elaborate=_state["elab"])
+        else:
+            _ss.elaborate_frame.register(_state["framegen"])(_state["elab"])
         # frames owned by gen items must be created through them: build gens (highest id first, since
         # a gen delegates only to larger ids), then free-standing frames
         owner = {d["frame"]: d["id"] for d in case["items"] if d["kind"] == "gen"}
